@@ -122,6 +122,10 @@ def expected_literals(cleaned, postgres):
             for i in q.ids:
                 if len(i) == 64:
                     exp.add("\\x" + i)
+        for i in (q.ids or []):
+            if len(i) > 64:
+                # an id of more than 64 digits is compared as a LIKE prefix of the 64-digit hex text (it matches nothing)
+                exp.add(i + "%")
         for name, vals in (q.tags or []):
             exp.add(name)
             for v in vals:
